@@ -5,6 +5,10 @@ V = os.path.dirname(os.path.dirname(os.path.abspath(__file__)))
 props = [json.loads(l) for l in open(os.path.join(V, "properties.jsonl"))]
 
 CLAIMED = {
+ "C01": dict(
+  technique="rapid state-machine histories of document notifications against a UTF-16 reference client buffer; differential against a fresh server for feature answers",
+  text="Generated histories (2..12 didOpen / didChange with 1..4 ranged or range-less changes / didClose / re-open on 1..3 documents; ASCII, BMP, non-BMP, LF, CRLF, empty documents; positions past line and document end; insertions creating and deleting line breaks) are serialised as a conforming client would, decoded with the protocol library's JSON decoder and passed to the server; after every notification the text the server holds must equal an independent UTF-16 reference buffer. With the verif hook holding the background analysis, one feature request issued right after the notification must equal the answer of a fresh server opened on the reference text.",
+  note="In-process at the Server API (main.go is a pass-through); the decoder step reproduces the one place where decoding matters (range-less vs 0:0-0:0). Lone CR line ends and positions inside surrogate pairs are not generated (a conforming client cannot send them). Open finding C01-F1 (ranged insertion at 0:0) is excluded from the main campaign by construction and replayed separately."),
  "C10": dict(
   technique="exhaustive enumeration of include graphs on <=4 files + rapid-generated graphs (globs, dangling, limits), judged by an independent reference DFS resolver",
   text="Generated-input search: every directed include graph on up to 3 files (quick) / 4 files in two directive orders (thorough) is written to disk and loaded through Loader.Load and LoadFromContent; rapid adds graphs on up to 5 files with glob / absolute / home-relative / dangling directives, depth limits 1..5 and one oversized file. The loaded set, each-once, and the exact set of (directive, verdict) pairs are compared with a reference resolver written from the property (ancestor stack + loaded set). Exhaustive only for the named finite graph space; exploration beyond it.",
